@@ -19,14 +19,17 @@ TRANSPARENT_CALLS = {
     "std::convert::AsRef::as_ref", "std::ops::Deref::deref", "std::ops::DerefMut::deref_mut", "std::borrow::Borrow::borrow",
     "std::clone::Clone::clone", "<std::string::String>::as_str", "<str>::to_string", "<str>::to_owned", "<std::string::String>::as_ref",
     "<std::borrow::Cow<'a, B>>::into_owned", "<std::borrow::Cow<'_, B> as std::ops::Deref>::deref",
+    "<std::option::Option<T>>::as_deref", "<std::option::Option<T>>::as_ref", "<std::path::PathBuf>::as_path", "<std::option::Option<&T>>::cloned", "<std::option::Option<&T>>::copied",
 }
 
 
 class Sym:
-    def __init__(self, prog, inline_depth=4, max_depth=40):
+    def __init__(self, prog, inline_depth=4, max_depth=40, force_inline=()):
         self.prog = prog
         self.inline_depth = inline_depth
         self.max_depth = max_depth
+        # defs inlined whatever the shape of their CFG (their return value becomes a phi of its definitions)
+        self.force_inline = set(force_inline)
 
     # ---- entry points
     def operand(self, body, op, env=None, depth=0, inl=0, visiting=None):
@@ -136,7 +139,7 @@ class Sym:
         if t["callee"].get("res") in ("unresolved", "virtual"):
             return ("call", orig, args)
         cb = self.prog.bodies.get(name)
-        if cb is not None and inl < self.inline_depth and straight_line(cb):
+        if cb is not None and inl < self.inline_depth and (straight_line(cb) or name in self.force_inline):
             r = self.local(cb, 0, env=list(args), depth=depth, inl=inl + 1, visiting=visiting)
             if not _has_unknown(r):
                 return r
